@@ -187,8 +187,8 @@ NSUB = {'until1': 1, 'until2': 2, 'ite': 3, 'strict': 2, 'starstrict': 2, 'remat
 
 # the sub-input of rematch must report the positions of the outer input: eager = the entry iterator's counters; lazy = a begin
 # iterator whose byte offset continues the outer input's (g_ob_byte = byte of the outer begin iterator)
-REMATCH_PRE = {'eager': '#define REMATCH_SUB_COUNTERS(in) (BYTE(in) == g_e_byte && LINE(in) == g_e_line && COL(in) == g_e_col)\nsize_t g_ob_byte;\n',
-               'lazy': '#define REMATCH_SUB_COUNTERS(in) (INB(in).m_begin.byte == g_ob_byte + g_e_off)\nsize_t g_ob_byte;\n'}
+REMATCH_PRE = {'eager': '#define EOLCH_UNTIL \'\\n\'\n#define REMATCH_SUB_COUNTERS(in) (BYTE(in) == g_e_byte && LINE(in) == g_e_line && COL(in) == g_e_col)\nsize_t g_ob_byte;\n',
+               'lazy': '#define EOLCH_UNTIL \'\\n\'\n#define REMATCH_SUB_COUNTERS(in) (INB(in).m_begin.byte == g_ob_byte + g_e_off)\nsize_t g_ob_byte;\n'}
 
 
 def jobs(tier):
@@ -213,9 +213,14 @@ def jobs(tier):
         stubs = [(r'^bool vf::R<\d+>::match<', stub)]
         if op == 'until1':
             # until< Cond > skips bytes it has not looked at: any of them may be a line ending, so only the line-counting bump()
-            # keeps the eager position right (C06); a call of the other two primitives is a failed precondition
+            # keeps the eager position right (C06).  The other two primitives are position-correct only for bytes known not to be /
+            # known to be the line ending: that is their precondition here (unprovable for an unexamined byte)
+            def _pre(st_):
+                if 'bump_in_this_line' in st_[0]:
+                    return R('count == 1 && __CPROVER_r_ok(iter->data, 1) && *(iter->data) != EOLCH_UNTIL', 'until-skips-unexamined-bytes-with-the-line-counting-bump', ('C06', 'C09'))
+                return R('count == 1 && __CPROVER_r_ok(iter->data, 1) && *(iter->data) == EOLCH_UNTIL', 'until-skips-unexamined-bytes-with-the-line-counting-bump', ('C06', 'C09'))
             stubs += [st_ if 'internal::bump\\(' in st_[0] else
-                      (st_[0], Contract(R('0', 'until-skips-unexamined-bytes-with-the-line-counting-bump', ('C06', 'C09')), Clause('assigns', '')), 'opt')
+                      (st_[0], Contract(*([_pre(st_)] + [c for c in st_[1].clauses if not (c.kind == 'requires')])), 'opt')
                       for st_ in g_pos.pos_stubs()]
         j = Job(rname(op, a, m, tr), NAME, rname(op, a, m, tr), con, ('C09', 'C02', 'C05', 'C11') + (('C06',) if op.startswith('rematch') else ()), stubs=stubs, loops=loops,
                 prelude=comb_prelude(tr) + g_pos.PRE_STUB + REMATCH_PRE[tr],
